@@ -318,6 +318,7 @@ func c05Ctxs(tier string) []CtxCase {
 		MkCtx(1, -1, 3, apd.RoundHalfEven, 0), MkCtx(2, 0, 2, apd.RoundUp, 0), MkCtx(3, -3, 9, apd.RoundFloor, 0), MkCtx(3, -6143, 6144, apd.RoundHalfUp, 0),
 		MkCtx(5, -6143, 6144, apd.RoundHalfEven, apd.DefaultTraps), MkCtx(9, -100000, 100000, apd.RoundDown, 0), MkCtx(16, -6143, 6144, apd.RoundHalfEven, apd.Inexact|apd.Rounded),
 		MkCtx(0, -100000, 100000, apd.RoundHalfUp, 0),
+		MkCtx(2, -3, 9, "", 0), // the empty Rounder: the documented default (half_up), resolved inside the rounding step
 	}
 	if tier == "thorough" {
 		out = append(out, MkCtx(4, -1, 6, apd.RoundCeiling, 0), MkCtx(7, -3, 9, apd.Round05Up, 0), MkCtx(2, -1, 4, apd.RoundHalfDown, apd.InvalidOperation), MkCtx(34, -6143, 6144, apd.RoundHalfEven, 0))
